@@ -149,4 +149,5 @@ TraceSpec == TraceInit /\ [][TraceNext]_<<vars, tvars>>
 Report == (l = Len(Trace) + 1) =>
             PrintT(<<"RESULT", ToJson([lines |-> l - 1, ntraces |-> ntraces, nchecks |-> nchecks,
                                        bads |-> {[line |-> b[1], trace |-> b[2], prop |-> b[3]] : b \in bads}])>>)
-===============================================================================
+NoMid == {}
+=============================================================================
